@@ -27,14 +27,14 @@ var acrNames = []string{"", "idporten-loa-substantial", "idporten-loa-high", "Le
 
 // mcfg is the scenario configuration shared with the model (mk_config).
 type mcfg struct {
-	redis, sso, fwd     bool
-	inact               int64 // ns, 0 = off
-	maxlife             int64
-	acr, pacr           int
-	idtok, autologin    bool
-	updAtomic, memLock  bool
-	logoutStrict        bool
-	tau                 int64
+	redis, sso, fwd    bool
+	inact              int64 // ns, 0 = off
+	maxlife            int64
+	acr, pacr          int
+	idtok, autologin   bool
+	updAtomic, memLock bool
+	logoutStrict       bool
+	tau                int64
 }
 
 func bi(b bool) int {
@@ -172,6 +172,7 @@ func (m *mrun) spawn(kind string, ckSpec string, fcSid int) int {
 		}
 	}
 	th := m.s.spawn(tid, spec)
+	th.pendingKind = kind
 	m.live[tid] = th
 	m.emit(fmt.Sprintf("S %d %s %s", tid, mk, mc), []int64{0}, m.s.outcomeCode(th), m.s.snapshot())
 	return tid
@@ -515,7 +516,7 @@ type schedule struct {
 	branch  []int // branching factor seen at each step
 }
 
-func genConcurrent(kinds []string, region int, sched *schedule, crashTid int, crashAfter int, followUps []string) scenarioFn {
+func genConcurrent(kinds []string, region int, sched *schedule, crashTid int, crashAfter int, followUps []string, relogin bool) scenarioFn {
 	return func(m *mrun, rng *mrand.Rand) {
 		m.login(1, 2)
 		md := m.storedMeta(0)
@@ -530,6 +531,7 @@ func genConcurrent(kinds []string, region int, sched *schedule, crashTid int, cr
 			tids = append(tids, m.spawn(k, "L0", 1))
 		}
 		steps := map[int]int{}
+		relogged := false
 		for step := 0; step < 400 && m.fail == ""; step++ {
 			var runnable []int
 			for _, t := range tids {
@@ -574,6 +576,11 @@ func genConcurrent(kinds []string, region int, sched *schedule, crashTid int, cr
 			steps[t]++
 			if !m.run(t, 0) {
 				break
+			}
+			// the user logs in again (same provider session id) as soon as a logout has completed
+			if relogin && !relogged && m.isDone(t) && (m.live[t].pendingKind == "lo" || m.live[t].pendingKind == "ll" || m.live[t].pendingKind == "fc") {
+				relogged = true
+				m.login(1, 2)
 			}
 		}
 		sched.branch = sched.branch[:min(len(sched.branch), 400)]
@@ -764,22 +771,25 @@ func runMachine(args []string) error {
 		}
 	case "conc", "crash":
 		type combo struct {
-			kinds  []string
-			region int
-			follow []string
+			kinds   []string
+			region  int
+			follow  []string
+			relogin bool
 		}
 		combos := []combo{
-			{[]string{"r", "lo"}, 0, []string{"p", "i"}},
-			{[]string{"p", "lo"}, 2, []string{"p", "i"}},
-			{[]string{"p", "ll"}, 1, []string{"p"}},
-			{[]string{"r", "fc"}, 0, []string{"p", "i"}},
-			{[]string{"p", "p"}, 2, []string{"p"}},
-			{[]string{"r", "p"}, 1, []string{"i"}},
-			{[]string{"r", "r"}, 0, []string{"i"}},
-			{[]string{"p", "f"}, 2, []string{"i"}},
+			{[]string{"r", "lo"}, 0, []string{"p", "i"}, false},
+			{[]string{"r", "lo"}, 0, []string{"p", "i"}, true},
+			{[]string{"p", "ll"}, 2, []string{"p", "i"}, true},
+			{[]string{"p", "lo"}, 2, []string{"p", "i"}, false},
+			{[]string{"p", "ll"}, 1, []string{"p"}, false},
+			{[]string{"r", "fc"}, 0, []string{"p", "i"}, false},
+			{[]string{"p", "p"}, 2, []string{"p"}, false},
+			{[]string{"r", "p"}, 1, []string{"i"}, false},
+			{[]string{"r", "r"}, 0, []string{"i"}, false},
+			{[]string{"p", "f"}, 2, []string{"i"}, false},
 		}
 		if *n > 2000 {
-			combos = append(combos, combo{[]string{"p", "r", "lo"}, 2, []string{"p"}}, combo{[]string{"p", "p", "r"}, 2, []string{"i"}})
+			combos = append(combos, combo{[]string{"p", "r", "lo"}, 2, []string{"p"}, false}, combo{[]string{"p", "p", "r"}, 2, []string{"i"}, false})
 		}
 		for _, redis := range stores {
 			for _, cb := range combos {
@@ -791,7 +801,7 @@ func runMachine(args []string) error {
 					sched := &schedule{}
 					per := 0
 					for {
-						if err := emit(c, genConcurrent(cb.kinds, cb.region, sched, 0, 0, cb.follow), 1); err != nil {
+						if err := emit(c, genConcurrent(cb.kinds, cb.region, sched, 0, 0, cb.follow, cb.relogin), 1); err != nil {
 							return err
 						}
 						per++
@@ -811,7 +821,7 @@ func runMachine(args []string) error {
 								if alt == 1 {
 									sched.choices = []int{1, 0, 1, 0, 1, 0, 1, 0, 1, 0, 1, 0}
 								}
-								if err := emit(c, genConcurrent(cb.kinds, cb.region, sched, crashT, after, append([]string{"p"}, cb.follow...)), 1); err != nil {
+								if err := emit(c, genConcurrent(cb.kinds, cb.region, sched, crashT, after, append([]string{"p"}, cb.follow...), false), 1); err != nil {
 									return err
 								}
 							}
